@@ -4,7 +4,9 @@ differing results are kept in `history`).
 
 By default the change is applied to a scratch worktree of /repo (outside /repo and /verif, removed at the end) and the
 check is pointed at it with VERIF_REPO, so that /repo itself is never modified while other work reads it.  With --in-repo
-the change is applied to /repo (git apply) and undone straight afterwards (git checkout -- .): run nothing else meanwhile."""
+the change is applied to /repo (git apply) and undone straight afterwards (git checkout -- .): run nothing else meanwhile.
+Several sweeps may run side by side when each has its own scratch path (SWEEP_WT) and its own set of properties
+(harness/seed_sweep_all.sh)."""
 import glob
 import json
 import os
@@ -19,7 +21,7 @@ def sh(cmd):
 
 IN_REPO = '--in-repo' in sys.argv
 args = [a for a in sys.argv[1:] if a != '--in-repo']
-REPO = '/repo' if IN_REPO else '/tmp/wn-seedsweep'
+REPO = '/repo' if IN_REPO else os.environ.get('SWEEP_WT', '/tmp/wn-seedsweep')
 if not IN_REPO:
     sh('git -C /repo worktree remove --force %s' % REPO)
     sh('rm -rf %s' % REPO)
